@@ -248,6 +248,22 @@ pub fn rich_string(max: usize) -> BoxedStrategy<String> {
         1 => Just(String::new()),
         8 => prop::collection::vec(rich_char(), 0..=max.min(12)).prop_map(|v| v.into_iter().collect()),
         2 => prop::collection::vec(rich_char(), 0..=max).prop_map(|v| v.into_iter().collect()),
+        // strings of a "magic" byte length (hex id / signature sizes, index key width, u8 limits) that nevertheless
+        // contain characters needing an escape
+        1 => (prop::sample::select(vec![32usize, 63, 64, 65, 128, 182, 183, 255, 256]), prop::collection::vec((any::<u16>(), prop::sample::select(vec!['"', '\\', '\n', '\u{1}', '/', '\u{7f}', 'é'])), 0..4), prop::sample::select(vec!['a', 'f', '0', 'z']))
+            .prop_map(|(len, specials, fill)| {
+                let mut v: Vec<char> = std::iter::repeat(fill).take(len).collect();
+                for (pos, ch) in specials {
+                    let i = (pos as usize * len) >> 16;
+                    v[i] = ch;
+                }
+                // keep the byte length at `len`: a two-byte character replaces two fillers
+                let mut s: String = v.into_iter().collect();
+                while s.len() > len {
+                    let _ = s.pop();
+                }
+                s
+            }),
         // strings that look like JSON structure
         2 => prop::sample::select(vec!["],[", "\"],[\"", "]", "[", ",", "\",\"", "}", "{\"id\":", "]]", "\\", "\\\"", ":", "[[\"a\"]]", "\\u0041"]).prop_map(|s| s.to_string()),
     ]
@@ -336,4 +352,36 @@ pub fn mevent_strategy(max_tags: usize, max_len: usize) -> BoxedStrategy<MEvent>
             content,
         })
         .boxed()
+}
+
+// ------------------------------------------------------------------------------------------
+// NIP-01 kind ranges and addresses, written out here so that no oracle asks the library under test
+
+pub fn kind_is_replaceable(k: u16) -> bool {
+    k == 0 || k == 3 || (10000..=19999).contains(&k)
+}
+
+pub fn kind_is_ephemeral(k: u16) -> bool {
+    (20000..=29999).contains(&k)
+}
+
+pub fn kind_is_param_replaceable(k: u16) -> bool {
+    (30000..=39999).contains(&k)
+}
+
+/// `kind:pubkey:d` (the d part may itself contain colons). None when malformed.
+pub fn parse_addr(s: &str) -> Option<(u16, String, String)> {
+    let mut it = s.splitn(3, ':');
+    let k = it.next()?;
+    let a = it.next()?;
+    let d = it.next()?;
+    if k.is_empty() || !k.bytes().all(|c| c.is_ascii_digit()) && !(k.starts_with('+') && k[1..].bytes().all(|c| c.is_ascii_digit()) && k.len() > 1) {
+        return None;
+    }
+    let kind: u16 = k.parse().ok()?;
+    let ab = unhex(a)?;
+    if ab.len() != 32 {
+        return None;
+    }
+    Some((kind, hex(&ab), d.to_string()))
 }
